@@ -27,7 +27,7 @@
 (*   - deferred reclamation inside scc (Reclaim) is folded into the exiting     *)
 (*     event of the orphaned worker                                             *)
 (*   - a finished API caller releases its clone at some instant before its      *)
-(*     caller_done stamp (LINGER = TRUE, hidden HRelease)                       *)
+(*     caller_done stamp (LINGER = TRUE, hidden HReleaseAll)                       *)
 (* The trace is accepted iff some placement explains every line (POSTCONDITION  *)
 (* TraceAccepted).  The P-invariants are checked on every state of every        *)
 (* candidate explanation.                                                       *)
@@ -155,9 +155,16 @@ TRemoveEnd ==
   /\ rem' = [rem EXCEPT ![E.by] = [st |-> "", k |-> 0]]
   /\ UNCHANGED <<vars, fresh, pend, dropArmed, cancelArmed>>
 
+\* first critical section of fetch_and_update.  The upgrade of the worker's Weak happened earlier;
+\* unless the user is dropping the manager (HUpgrade) its instant does not matter and it is folded in
 TFetchStart ==
   /\ E.ev = "fetch_start" /\ E.w \in Workers
-  /\ BeginFetch(E.w)
+  /\ \/ BeginFetch(E.w)
+     \/ /\ wpc[E.w] \in {"spawned", "sleeping"} /\ Alive
+        /\ wpc' = [wpc EXCEPT ![E.w] = "fetching"]
+        /\ ongoing' = [ongoing EXCEPT ![E.w] = TRUE]
+        /\ fetches' = [fetches EXCEPT ![E.w] = @ + 1]
+        /\ UNCHANGED <<wkey, init, err, active, used, mvars, cvars, running>>
   /\ UNCHANGED aux
 
 \* harness stamp: the fetcher is about to return outcome `note`
@@ -258,10 +265,14 @@ HCancel(c) ==
   /\ SetC(c, <<"done", "cancelled">>)
   /\ UNCHANGED <<mvars, wvars, h, notified, running, aux>>
 
-\* the call returned and its clone of the manager is gone (before the caller_done stamp)
-HRelease(c) ==
-  /\ c \in linger /\ cpc[c] = "done"
-  /\ linger' = linger \ {c} /\ Fresh(c, "")
+\* finished calls have returned and their clones of the manager are gone (before their caller_done
+\* stamps).  Only the instant at which the LAST clone disappears matters (the manager dies), so
+\* all lingering callers are released in one step; individual releases happen at caller_done.
+HReleaseAll ==
+  /\ linger # {}
+  /\ (dropArmed \/ ~userHeld)    \* otherwise the user's clone keeps the manager alive anyway
+  /\ linger' = {}
+  /\ fresh' = [c \in Callers |-> IF c \in linger THEN "" ELSE fresh[c]]
   /\ UNCHANGED <<mvars, wvars, cpc, h, notified, res, running, pend, dropArmed, cancelArmed, rem>>
 
 HFetchReturn(w) ==
@@ -286,6 +297,7 @@ HExitRemove(w) ==
 
 \* the worker upgraded its Weak (first poll or refetch tick) some time before it stamps fetch_start
 HUpgrade(w) ==
+  /\ (dropArmed \/ ~userHeld)    \* only then can the manager die before fetch_start
   /\ (FirstPoll(w) \/ Refetch(w))
   /\ wpc'[w] = "starting"
   /\ UNCHANGED aux
@@ -307,7 +319,8 @@ HDrop == dropArmed /\ Drop /\ UNCHANGED aux
 THidden ==
   /\ l <= Len(Rec) /\ Rec[l].ev # "reset"
   /\ UNCHANGED l
-  /\ \/ \E c \in Callers : ReRead(c) \/ HCancel(c) \/ HRelease(c)
+  /\ \/ \E c \in Callers : ReRead(c) \/ HCancel(c)
+     \/ HReleaseAll
      \/ \E w \in Workers : HUpgrade(w) \/ HFetchReturn(w) \/ HExitRemove(w) \/ HExitSkip(w) \/ HClear(w)
      \/ HStop \/ HDrop
 
